@@ -215,22 +215,32 @@ theorem flushInner_good {w : World} {v : Volatile} (now : Nat) (hD : DurInv w.D)
     subst hc1
     simp only [flushStep, Bool.false_eq_true, if_false]
     split
-    · have hcm := commits_durInv hD hx (dirtyIxs v) w rfl
+    · generalize hpre : (dirtyIxs v).takeWhile (fun ix => !w.ixStale.contains ix) = pre
+      have hcm := commits_durInv hD hx pre w rfl
       simp only [commits] at hcm
       obtain ⟨a1, a2, a3, a4, a5, a6, a7⟩ := hcm
       split
       · rename_i hok
-        refine ⟨a1, a2, a3, a4, a5, a6, a7, rfl, fun _ => ⟨?_, rfl⟩⟩
-        have hfold := attemptAll_ok _ w hok
-        have hcf := commits_fold v.idx (dirtyIxs v) w.D
-        simp only [commits] at hcf
-        intro id k
-        rw [hfold, hcf.2.2.2.2.2.2.2.2 id k]
-        by_cases hk : k.1 ∈ dirtyIxs v
-        · simp [hk, hx]
-        · simp only [hk, if_false]
-          rw [← hx]
-          exact s7 k.1 (by rwa [mem_dirtyIxs] at hk) id k rfl
+        split
+        · rename_i hlen
+          have hpe : pre = dirtyIxs v := by
+            have hpl : pre.length = (dirtyIxs v).length := by simpa using hlen
+            have hpf : pre <+: dirtyIxs v := by rw [← hpre]; exact List.takeWhile_prefix _
+            exact hpf.eq_of_length hpl
+          refine ⟨a1, a2, a3, a4, a5, a6, a7, rfl, fun _ => ⟨?_, rfl⟩⟩
+          have hfold := attemptAll_ok _ w hok
+          have hcf := commits_fold v.idx pre w.D
+          simp only [commits] at hcf
+          intro id k
+          rw [hfold, hcf.2.2.2.2.2.2.2.2 id k, hpe]
+          by_cases hk : k.1 ∈ dirtyIxs v
+          · simp [hk, hx]
+          · simp only [hk, if_false]
+            rw [← hx]
+            exact s7 k.1 (by rwa [mem_dirtyIxs] at hk) id k rfl
+        · -- a stale manifest version: the conditional PUT is rejected, the flush fails
+          simp only [reject_D]
+          exact ⟨a1, a2, a3, a4, a5, a6, a7, by triv, fun h => by simp at h⟩
       · exact ⟨a1, a2, a3, a4, a5, a6, a7, rfl, fun h => by simp at h⟩
     · rename_i hp
       have hd : v.dirty = [] := by simpa using hp
